@@ -1,4 +1,5 @@
 import PxModel.Bytes
+import PxModel.Generated
 /-
   Model of proxy/http/websocket/frame.py (WebsocketFrame.build / parse /
   apply_mask) as of the tree with the two `fix:` commits (D5, D6).
@@ -190,7 +191,7 @@ def webLoop : Nat → Inst → Bytes → List Inst × LoopEnd
     else match parseSt s raw with
       | .error e => ([], .failed e)
       | .ok (i, rest) =>
-        if i.opcode == 8 then ([], .closed)
+        if i.opcode == Px.Gen.wsOpClose then ([], .closed)   -- websocketOpcodes.CONNECTION_CLOSE (generated)
         else
           let r := webLoop n i.reset rest
           (i :: r.1, r.2)
@@ -200,7 +201,7 @@ def webLoop : Nat → Inst → Bytes → List Inst × LoopEnd
 def webLoopTop (raw : Bytes) : List Inst × LoopEnd := webLoop raw.length Inst.fresh raw
 
 /-- `WebsocketFrame.text(data)`: what the server side sends (FIN, TEXT, unmasked) -/
-def textFrame (data : Bytes) : Frame := ⟨true, false, false, false, 1, false, none, data⟩
+def textFrame (data : Bytes) : Frame := ⟨true, false, false, false, Px.Gen.wsOpText, false, none, data⟩
 def text (data : Bytes) : Except Err Bytes := build [] (textFrame data)
 
 /-! An independent encoder written from the RFC 6455 §5.2 frame diagram
